@@ -320,6 +320,19 @@ def math_vals(rng, s, n, f, count, positive=False):
     for k in range(0, n):
         p = 1 << k
         c.update((p, p + 1, p - 1))
+    # 2^k-th roots of powers of two and their neighbours: operands on which the squaring loop of log2 reaches exactly 1.0 or 2.0 after k steps
+    # (a state the loop treats specially); both sides of 1, at several binades.  Exact integer roots (isqrt applied k times).
+    import math as _m
+    for kk in range(1, 7):
+        for j in range(1, 1 << kk, 2):
+            r = 1 << (j + f * (1 << kk))
+            for _ in range(kk):
+                r = _m.isqrt(r)
+            for d in (-1, 0, 1, 2):
+                for sh in (0, 1, rng.randint(2, max(2, n - f - 2))):
+                    c.add((r + d) << sh)
+                c.add(((r + d) >> 1) + (d & 1))          # 2^(j/2^k - 1): below one, reciprocal path
+                c.add((r + d) >> rng.randint(2, max(2, f // 2)))
     for _ in range(count):
         k = rng.randint(1, n)
         v = rng.getrandbits(k)
